@@ -1098,6 +1098,212 @@ async def _(mpc):
     return [await mpc.output(S.if_else(secfld(1), g, e)) == g, await mpc.output(S.if_else(secfld(0), g, e)) == e]
 
 
+@case('C03', 'np_update does not write into its operand (views) and keeps the integral flags right', 'f132185', cfg=(3, 1, False), numpy=True,
+      expected=[[[1.0, 2.0], [3.0, -4.0]], True, False, [[1.0, 4.0], [9.0, 16.0]], [1.0, 2.0]])
+async def _(mpc):
+    S = mpc.SecFxp(32, 16)
+    I = S.array(np.array([[1, 2], [3, -4]]))
+    row = I[0]
+    row = mpc.np_update(row, 0, S(0.25))
+    A = S.array(np.array([1.0, 2.0]))
+    mpc.np_update(A, 1, 0.5)
+    return [(await mpc.output(I)).tolist(), bool(I.integral), bool(row.integral), (await mpc.output(I * I)).tolist(),
+            (await mpc.output(A)).tolist()]
+
+
+@case('C03', 'from_bits / np_from_bits of fractional "bits" are not marked integral', 'aef3042', numpy=True,
+      expected=[False, True, False, True, 0.6875], tol=2 ** -10)
+async def _(mpc):
+    S = mpc.SecFxp(32, 16)
+    y = mpc.from_bits([S(0.25), S(1)])
+    z = mpc.from_bits([S(1), S(1)])
+    w = mpc.np_from_bits(S.array(np.array([[0.5, 1.0]])))
+    w2 = mpc.np_from_bits(S.array(np.array([[1.0, 1.0]])))
+    return [bool(y.integral), bool(z.integral), bool(w.integral), bool(w2.integral), float(await mpc.output(y * S(0.3055419921875)))]
+
+
+@case('C30', 'np_from_bits over a prime field lifted to an extension field (SecFld(3), 3 parties)', 'aef3042', cfg=(3, 1, False), numpy=True,
+      expected=[2, 1, 1])
+async def _(mpc):
+    F3 = mpc.SecFld(3)
+    return _ints(await mpc.output(mpc.np_from_bits(F3.array(np.array([[0, 1], [1, 0], [1, 0]])))))
+
+
+@case('C01', 'NumPy integer scalars with secure integers: reflected %, //, << raise; // np.int64; comparisons with the scalar first',
+      'f11d5f9', numpy=True, expected=['TypeError', 'TypeError', 'TypeError', -4, 3, [0, 0, 1, 1, 0, 0, 1]])
+async def _(mpc):
+    secint = mpc.SecInt(16)
+
+    def tr(f):
+        try:
+            f()
+            return 'computed'
+        except TypeError:
+            return 'TypeError'
+    out = [tr(lambda: np.int64(7) % secint(5)), tr(lambda: np.int64(7) // secint(5)), tr(lambda: np.int64(3) << secint(5))]
+    out += [int(await mpc.output(secint(-25) // np.int64(7))), int(await mpc.output(secint(-25) % np.int64(7)))]
+    r = [np.int64(7) < secint(5), np.int64(7) <= secint(5), np.int64(7) > secint(5), np.int64(7) >= secint(5), np.int64(7) == secint(5),
+         np.int64(5) != secint(5), secint(5) + np.array(3) == 8]
+    return out + [_ints(await mpc.output(r))]
+
+
+@case('C30', 'np_find(a, s, bits=False) with an array of targets (also non-square a)', 'e030384', numpy=True, expected=[[2, 0, 1], [2, 2]])
+async def _(mpc):
+    T = mpc.SecInt(16)
+    A = np.array([[3, 5, 7], [7, 5, 3], [1, 3, 5]])
+    return [(await mpc.output(mpc.np_find(T.array(A), T.array(np.array([7, 7, 3])), bits=False))).tolist(),
+            (await mpc.output(mpc.np_find(T.array(A[:2]), T.array(np.array([7, 3])), bits=False))).tolist()]
+
+
+@case('C30', 'np_find with float-valued f / cs_f and with both f and cs_f', '2bbdb2f', numpy=True,
+      expected=[[0.25, 1.0, 0.0625], [0.25, 1.0, 0.0625], [3, 1, 5]])
+async def _(mpc):
+    T, S = mpc.SecInt(16), mpc.SecFxp(16, 4)
+    bits = np.array([[0, 0, 1, 0], [1, 0, 0, 0], [0, 0, 0, 0]])
+    b = S.array(bits.astype(float))
+    return [(await mpc.output(mpc.np_find(b, 1, cs_f=lambda b_, i: (2 - b_) * 2 ** -(i + 1)))).tolist(),
+            (await mpc.output(mpc.np_find(b, 1, f=lambda i: 2.0 ** -i))).tolist(),
+            (await mpc.output(mpc.np_find(T.array(bits), 1, f=lambda i: i + 1, cs_f=lambda b_, i: i + b_ + 1))).tolist()]
+
+
+@case('C20', 'field arrays with NumPy integer scalars as divisors / shift counts; operand arrays are not modified', 'da65b3b', numpy=True,
+      expected=[True, True, [-2, 3, 1], [-2, 3, 1], True, True])
+async def _(mpc):
+    from mpyc import finfields, gfpx
+    F = finfields.GF(2 ** 127 - 1)
+    a = F.array(np.array([1, 2, 3]))
+    G = finfields.GF(7)
+    b = G.array(np.array([1, 2, 3]))
+    B = finfields.GF(gfpx.GFpX(2)(0x11b))
+    c = B.array(np.array([1, 2, 3]))
+    x = np.array([2 ** 70, 9, 10], dtype=object)
+    xx = x.copy()
+    _ = (b == x)
+    _ = G.array(x)
+    return [bool(np.all(a / np.int64(3) == a / 3)), bool(np.all(a >> np.int64(2) == a >> 2)), [int(v) for v in b / np.uint8(3)],
+            [int(v) for v in b / np.uint64(3)], bool(np.all(c / np.int64(3) == c / 3)), x.tolist() == xx.tolist()]
+
+
+@case('C33', 'random_derangement of one element and sample with k > n raise ValueError at the call (3 parties); rows keep their entries',
+      '05bfd34', cfg=(3, 1, False), expected=['ValueError', 'ValueError', [[1, 2], [3, 4], [5, 6]], [[1, 2], [3, 4], [5, 6]]])
+async def _(mpc):
+    import mpyc.random as R
+    secint = mpc.SecInt(16)
+    out = []
+    for f in (lambda: R.random_derangement(secint, [5]), lambda: R.sample(secint, [1, 2, 3], 5)):
+        try:
+            f()
+            out.append('no error')
+        except ValueError:
+            out.append('ValueError')
+    rows = [[1, 2], [3, 4], [5, 6]]
+    p = R.random_permutation(secint, rows)
+    x = [[secint(1), 2], [3, secint(4)], [5, 6]]
+    R.shuffle(secint, x)
+    out.append(rows)
+    out.append(sorted([_ints(await mpc.output(r)) for r in x]))
+    await mpc.output(p[0])
+    return out
+
+
+@case('C04', 'secure field array / public field element; 0D and zero-size outputs over a lifted field', 'a47a1b9', cfg=(3, 1, False), numpy=True,
+      expected=[[5, 3, 1], 1, [0, 2], 1])
+async def _(mpc):
+    S = mpc.SecFld(7)
+    A = S.array(np.array([1, 2, 3]))
+    S3 = mpc.SecFld(3)
+    return [_ints(await mpc.output(A / S.field(3))), int(await mpc.output(S3.array(np.array(2)) * 2)),
+            list((await mpc.output(S3.array(np.zeros((0, 2), dtype=int)) * 2)).shape),
+            int(await mpc.output(mpc.np_det(S3.array(np.array([[1, 2], [0, 1]])))))]
+
+
+@case('C23', 'polynomial strings with multi-character symbols / negative exponents; == with polynomials over another field', '3914227',
+      expected=[True, 'ValueError', 'ValueError', False, True, True])
+async def _(mpc):
+    from mpyc import gfpx
+    P3, P2 = gfpx.GFpX(3), gfpx.GFpX(2)
+    a = P3('x^2+2x+1')
+    out = [P3.from_terms(P3.to_terms(a, 'ab'), 'ab') == a]
+    for t in ('x^-1', 'x^3+x^-2'):
+        try:
+            P3(t)
+            out.append('accepted')
+        except ValueError:
+            out.append('ValueError')
+    return out + [P3(1) == P2(1), P3(1) != P2(1), P3(1) in [P2(1), P3(1)]]
+
+
+@case('C27', 'HyperellipticCurve(l=4, genus=2) / (l=2) return; generator has the declared order where known', 'd1bceb6', expected=[True, True])
+async def _(mpc):
+    import signal
+    from mpyc import fingroups as fg
+
+    def alarm(*_):
+        raise TimeoutError
+    old = signal.signal(signal.SIGALRM, alarm)
+    signal.alarm(60)
+    try:
+        out = []
+        for kw in (dict(l=4, genus=2), dict(l=2)):
+            try:
+                G = fg.HyperellipticCurve(**kw)
+                out.append(G.generator @ G.identity == G.generator)
+            except TimeoutError:
+                out.append('hangs')
+        return out
+    finally:
+        signal.alarm(0)
+        signal.signal(signal.SIGALRM, old)
+
+
+@case('C27', 'ClassGroup(l=2052).encode / decode', '7f85a15', expected=5)
+async def _(mpc):
+    from mpyc import fingroups as fg
+    C = fg.ClassGroup(l=2052)
+    return int(C.decode(*C.encode(5)))
+
+
+@open_case('C39', 'C39-extension-field-not-lifted', 'SecFld(4) with 5 parties (threshold 2): a type over a field with more than 5 elements, outputs in GF(4)',
+           cfg=(5, 2, True), expected=[True, 3])
+async def _(mpc):
+    S = mpc.SecFld(4)
+    x = mpc.input(S(3), senders=0)
+    return [S.field.order > 5, int(await mpc.output(x))]
+
+
+@open_case('C33', 'C33-randrange-extension-field', 'randrange(SecFld(2^8), 3, 6) stays in {3, 4, 5}', expected=True)
+async def _(mpc):
+    import mpyc.random as R
+    S = mpc.SecFld(2 ** 8)
+    ok = True
+    for _ in range(12):
+        ok = ok and int(await mpc.output(R.randrange(S, 3, 6))) in (3, 4, 5)
+    return ok
+
+
+@open_case('C33', 'C33-choices-weight-total', 'choices(SecInt(8), [1,2,3], [150,150,151], k=30) returns members of the population', expected=True)
+async def _(mpc):
+    import mpyc.random as R
+    secint = mpc.SecInt(8)
+    return all(int(v) in (1, 2, 3) for v in await mpc.output(R.choices(secint, [1, 2, 3], [150, 150, 151], k=30)))
+
+
+@open_case('C27', 'C27-bn256-twist-encode', "EllipticCurve('BN256_twist').encode / decode round trip", expected=5)
+async def _(mpc):
+    from mpyc import fingroups as fg
+    G = fg.EllipticCurve('BN256_twist', 'projective')
+    return int(G.decode(*G.encode(5)))
+
+
+@open_case('C01', 'C01-zero-base-power', '0 ** secint.array([0, 1, 2, 5])', numpy=True, expected=[1, 0, 0, 0])
+async def _(mpc):
+    secint = mpc.SecInt(16)
+    return _ints(await mpc.output(0 ** secint.array(np.array([0, 1, 2, 5]))))
+
+
+OPEN_STEPS['random_derangement of one element and sample with k > n raise ValueError at the call (3 parties); rows keep their entries'] = 300_000
+
+
 # ---------------------------------------------------------------------------------------------------- driver
 def _close(a, b, tol):
     if isinstance(a, (list, tuple)) and isinstance(b, (list, tuple)):
